@@ -58,7 +58,47 @@ def on_face(tr, P):
     return any(any(x == l or x == u for x, l, u in zip(c["xo"], lb, ub)) for c in tr["calls"])
 
 
+def reuse_arrays_runs(ctx):
+    """A multi-start loop that hands THE SAME bound arrays to several optimisations (log-scaled, mixed and linear boxes; (D,) and (1,D) float64
+    arrays): every target argument and every returned x of every run must lie in the box those arrays DESCRIBED when the user built them.
+    Returns (number of runs, first violation or None)."""
+    import logging
+    import numpy as np
+    from pybads import BADS
+    logging.disable(logging.CRITICAL)
+    bad, n = None, 0
+    boxes = [("log", [0.01, 0.01], [100.0, 100.0], [0.1, 0.1], [10.0, 10.0], [[1.0, 2.0], [30.0, 0.05], [0.2, 60.0]]),
+             ("mixed", [-5.0, 2.0], [5.0, 5000.0], [-2.0, 5.0], [2.0, 500.0], [[0.5, 40.0], [-1.0, 4000.0]]),
+             ("linear-row", [[-3.0, -3.0]], [[4.0, 4.0]], [[-1.0, -1.0]], [[2.0, 2.0]], [[0.5, 0.5], [3.9, -2.9]])]
+    for name, lb, ub, plb, pub, starts in boxes:
+        LB, UB, PLB, PUB = (np.array(v, dtype=float) for v in (lb, ub, plb, pub))
+        lo, hi = LB.copy().reshape(-1), UB.copy().reshape(-1)
+        for j, x0 in enumerate(starts):
+            pts = []
+
+            def fun(x, pts=pts):
+                pts.append(np.array(x, dtype=float).reshape(-1).copy())
+                return float(np.sum((np.log(np.abs(np.asarray(x, dtype=float).reshape(-1)) + 1e-3) + 9.0) ** 2))     # optimum far below the box
+            n += 1
+            try:
+                r = BADS(fun, np.array(x0, dtype=float), LB, UB, PLB, PUB, options=dict(display="off", random_seed=3 + j, max_fun_evals=30)).optimize()
+                pts.append(np.asarray(r["x"], dtype=float).reshape(-1))
+            except Exception as ex:
+                bad = bad or f"run {j} on the '{name}' box with re-used bound arrays raised {type(ex).__name__}: {str(ex)[:100]}"
+                continue
+            out = [p.tolist() for p in pts if np.any(p < lo) or np.any(p > hi) or np.any(np.isnan(p))]
+            if out and bad is None:
+                bad = (f"run {j} of a multi-start loop re-using the same bound arrays ('{name}' box {lo.tolist()} .. {hi.tolist()}): {len(out)} target arguments / "
+                       f"returned points outside the box, e.g. {out[0]}")
+    logging.disable(logging.NOTSET)
+    return n, bad
+
+
 def tie(ctx, broken):
+    nre, badre = reuse_arrays_runs(ctx)
+    ctx.count(nre, nre)
+    if not ctx.oblige("multi_start_with_reused_arrays", "correspondence", badre is None, str(badre)):
+        ctx.violate("target-arg-outside", badre, dict(kind="reuse_arrays"))
     ctx.extra_requires = ["PV.Model.Filter", "PV.Model.SkeletonBox"]
     out = R.tie_skeleton(ctx, broken, [(s, None) for s in specs_for(ctx)], "c01", extra_valid=R.provenance_expr)
     R.count_runs(ctx, out, on_face)
@@ -83,6 +123,10 @@ def search(ctx, broken):
 
 
 def replay(ctx, rp):
+    if rp["replay"].get("kind") == "reuse_arrays":
+        n, bad = reuse_arrays_runs(ctx)
+        print("replay multi-start with re-used arrays:", bad or "every point inside the box")
+        return 1 if bad else 0
     if str(rp.get("key", "")).startswith("grid:"):
         return G.replay_grid(ctx, rp)
     return R.generic_replay(ctx, rp, [R.mon_c01])
